@@ -27,6 +27,7 @@ WEAK = {
     "Reapers_WeakGcReadOrder.cfg": "Inv_C16_GarbageCollection",
     "Reapers_WeakLiveGate.cfg": "Inv_C16_Liveness",
     "Reapers_WeakRepairTolByType.cfg": "Inv_C16_Repair",
+    "Reapers_WeakRepairAnnotated.cfg": "Inv_C16_Repair",
     "Reapers_WeakLive.cfg": "Inv_C16_Liveness",
     "Reapers_WeakLiveRound.cfg": "Inv_C16_Liveness",
     "Reapers_WeakRepairEarly.cfg": "Inv_C16_Repair",
@@ -203,6 +204,8 @@ def from_model(h, k, rng):
             return [{"a": "NodeGone", "name": ATTR[c]["node"]}]
         if a == "UserDelete":
             return [{"a": "UserDelete", "name": c}]
+        if a == "Annotate":
+            return [{"a": "Annotate", "name": c}]
         if a == "Join":
             launched[c] = True
             return [{"a": "SetClaim", "name": c, "launched": "True", "registered": "True", "pid": ATTR[c]["pid"], "instance": True},
@@ -615,6 +618,43 @@ def sys_repair_waves(tier, rng):
     return behs
 
 
+def sys_repair_retry(tier, rng):
+    """the breaker is consulted at EVERY pass: pass 1 is within the breaker but its NodeClaim Delete fails (or the process
+    dies right after the annotation patch) - or someone else annotated the claim -; then more nodes of the scope turn
+    unhealthy, past ceil(20 %) or still within it; then the retry."""
+    behs = []
+    for kind in ("pool", "standalone"):
+        pool = "p" if kind == "pool" else ""
+        for n, more in ((10, 2), (10, 1), (5, 1), (6, 1), (11, 3), (3, 1)):
+            for first in ("delete-fails", "delete-fails+restart", "annotated-by-other", "annotated-by-other-future", "annotate-fails"):
+                if tier == "quick" and first in ("annotated-by-other-future", "annotate-fails") and n not in (10, 5):
+                    continue
+                steps = [{"a": "Pool", "name": "p"}, {"a": "Pool", "name": "q"},
+                         claim_step("c1", pool, -1, "i1"), node_step("n1", "i1", pool, "True", {"BadDisk": "False"})]
+                for i in range(2, n + 1):
+                    p_i = pool if kind == "pool" else ("q" if i % 2 else "")
+                    steps.append(node_step("m%02d" % i, "j%02d" % i, p_i, "True", {"BadDisk": "False"}))
+                steps += [tick(10000), {"a": "SetCond", "name": "n1", "type": "BadDisk", "status": "True"}, tick(70000)]
+                if first.startswith("delete-fails"):
+                    steps.append(repair_step("n1", "delete", rng))
+                elif first == "annotate-fails":
+                    steps.append(repair_step("n1", "annotate", rng))
+                elif first == "annotated-by-other":
+                    steps.append({"a": "Annotate", "name": "c1"})
+                else:
+                    steps.append({"a": "Annotate", "name": "c1", "to": 3600})
+                if first.endswith("restart"):
+                    steps.append({"a": "Restart"})
+                steps.append(tick(75000))
+                steps += [{"a": "SetCond", "name": "m%02d" % i, "type": "BadDisk", "status": "True"} for i in range(2, 2 + more)]
+                steps += [tick(90000), {"a": "Repair", "name": "n1"}, {"a": "Repair", "name": "n1"}]
+                # some of them recover: back within the breaker, the retry may go through
+                steps += [{"a": "SetCond", "name": "m%02d" % i, "type": "BadDisk", "status": "False"} for i in range(2, 2 + more)]
+                steps += [tick(95000), {"a": "Repair", "name": "n1"}]
+                behs.append({"cfg": {"policies": POL2}, "steps": steps, "tag": "repair-retry:%s:n%d:+%d:%s" % (kind, n, more, first)})
+    return behs
+
+
 def sys_liveness(tier, rng):
     """the lifecycle controller's liveness path inside the reapers world (Reapers_Trace evaluates G_C16_Liveness)"""
     behs = []
@@ -760,7 +800,7 @@ def sys_gc_mid(tier, rng):
 
 
 def systematic(tier, rng):
-    return (sys_expiration(tier, rng) + sys_gc(tier, rng) + sys_gc_mid(tier, rng) + sys_repair(tier, rng) + sys_repair_waves(tier, rng)
+    return (sys_expiration(tier, rng) + sys_gc(tier, rng) + sys_gc_mid(tier, rng) + sys_repair(tier, rng) + sys_repair_waves(tier, rng) + sys_repair_retry(tier, rng)
             + sys_liveness(tier, rng) + sys_uninitialized(tier, rng))
 
 
